@@ -105,7 +105,8 @@ theorem montgomery_core (z0 z1 z2 z3 z4 z5 z6 z7 z8 : Int)
       = repZ [z0, z1, z2, z3, z4, z5, z6, z7, z8] + repZ [n0, n1, n2, n3, n4] * ell := by
     rw [ell_eqZ]
     simp only [repZ]
-    omega
+    linear_combination (-1 : Int) * e0 - 2 ^ 52 * (e1 - hs1) - 2 ^ 104 * (e2 - hs2) - 2 ^ 156 * (e3 - hs3)
+      - 2 ^ 208 * (e4 - hs4) - 2 ^ 260 * (e5 - hs5) - 2 ^ 312 * (e6 - hs6) - 2 ^ 364 * (e7 - hs7) - 2 ^ 416 * (e8 - hs8)
   have hn : repZ [n0, n1, n2, n3, n4] < 2 ^ 260 := by simp only [repZ]; omega
   have hn' : 0 ≤ repZ [n0, n1, n2, n3, n4] := by simp only [repZ]; omega
   have h2l : repZ [(s5 % 2 ^ 64) % 2 ^ 52, (s6 % 2 ^ 64) % 2 ^ 52, (s7 % 2 ^ 64) % 2 ^ 52, (s8 % 2 ^ 64) % 2 ^ 52, c8] < 2 * ell := by
